@@ -126,8 +126,9 @@ func newWorld(c Case) *world {
 	if c.UseNext {
 		cfg.Next = func(ctx fiber.Ctx) bool { return ctx.Query("skip") == "1" }
 	}
-	if c.Store == "vk" {
+	if c.Store != "memory" {
 		w.st = vk.NewStorage()
+		w.st.Retain = c.Store == "vk-retain"
 		cfg.Storage = w.st
 	}
 	w.app = fiber.New()
@@ -303,7 +304,7 @@ func check(c Case) vk.Verdict {
 	m := &model{live: map[string][]*origin{}}
 	v := vk.Verdict{Classes: []string{"store:" + c.Store}}
 	bound := func(where string) string {
-		if c.Store == "vk" && c.MaxBytes > 0 {
+		if c.Store != "memory" && c.MaxBytes > 0 {
 			if b := w.bytesHeld(); uint(b) > c.MaxBytes {
 				return fmt.Sprintf("%s: %d body bytes held in the storage, MaxBytes is %d (keys %v)", where, b, c.MaxBytes, w.st.Keys())
 			}
@@ -444,7 +445,7 @@ func genReq(t *rapid.T, c Case) Req {
 }
 
 func genCase(t *rapid.T, conc bool) Case {
-	c := Case{Store: rapid.SampledFrom([]string{"memory", "vk"}).Draw(t, "store"), MaxBytes: rapid.SampledFrom([]uint{0, 50, 100, 200, 400}).Draw(t, "maxbytes"),
+	c := Case{Store: rapid.SampledFrom([]string{"memory", "vk", "vk-retain"}).Draw(t, "store"), MaxBytes: rapid.SampledFrom([]uint{0, 50, 100, 200, 400}).Draw(t, "maxbytes"),
 		StoreHeaders: rapid.Bool().Draw(t, "storehdr"), CacheControl: rapid.Bool().Draw(t, "cachecontrol"), CustomKey: rapid.Bool().Draw(t, "customkey"),
 		UseNext: rapid.IntRange(0, 4).Draw(t, "usenext") == 0}
 	switch rapid.IntRange(0, 3).Draw(t, "methods") {
